@@ -228,14 +228,20 @@ func (w *World) Do(st Step) string {
 			st.What = ""
 			return w.refreshWithFault(what)
 		}
-		done := make(chan struct{})
+		done := make(chan string, 1)
 		go func() {
-			defer func() { recover(); close(done) }()
+			defer func() {
+				if r := recover(); r != nil {
+					done <- fmt.Sprintf("panic: %v", r)
+					return
+				}
+				done <- ""
+			}()
 			w.V.V.VerifCRLChecker().VerifUpdateCRLs(true)
 		}()
 		select {
-		case <-done:
-			return ""
+		case r := <-done:
+			return r
 		case <-time.After(60 * time.Second):
 			return "hang"
 		}
